@@ -161,3 +161,172 @@ Lemma gen_constraints_documented : constraint_table =
   :: ("core.Provider"%string, "grpc/json"%string, ("Limit"%string, TMin 0 :: nil)
   :: ("Passes"%string, TMin 0 :: nil) :: nil) :: ( "core.Provider"%string, "json"%string, ( "ammo-queue-size"%string, TMin 1 :: nil) :: ( "source"%string, TRequired :: nil) :: ( "Limit"%string, TMin 0 :: nil) :: ( "Passes"%string, TMin 0 :: nil) :: nil) :: ( "core.Schedule"%string, "const"%string, ( "Ops"%string, TMin 0 :: nil) :: ( "Duration"%string, TMinTime 1000000 :: nil) :: nil) :: ( "core.Schedule"%string, "instance_step"%string, ( "From"%string, TMin 0 :: nil) :: ( "To"%string, TMin 0 :: nil) :: ( "Step"%string, TMin 1 :: nil) :: ( "StepDuration"%string, TMinTime 1000000 :: nil) :: nil) :: ( "core.Schedule"%string, "line"%string, ( "From"%string, TMin 0 :: nil) :: ( "To"%string, TMin 0 :: nil) :: ( "Duration"%string, TMinTime 1000000 :: nil) :: nil) :: ( "core.Schedule"%string, "once"%string, ( "Times"%string, TMin 1 :: nil) :: nil) :: ( "core.Schedule"%string, "step"%string, ( "From"%string, TMin 0 :: nil) :: ( "To"%string, TMin 0 :: nil) :: ( "Step"%string, TMin 1 :: nil) :: ( "Duration"%string, TMinTime 1000000 :: nil) :: nil) :: ( "core.Schedule"%string, "unlimited"%string, ( "Duration"%string, TMinTime 1000000 :: nil) :: nil) :: nil.
 Proof. vm_compute. reflexivity. Qed.
+
+(* ---------------------------------------------------------------- the documented defaults
+   The registered default value of every option of every built-in component and of the CLI config, as they stand
+   in the source the properties were written against (ssl on for the http2 guns, no-tag-only on, queue sizes,
+   timeouts, ...).  The translator regenerates the left-hand side from the default-config functions of the current
+   tree; registering a component with another default no longer matches this table. *)
+Inductive dval :=
+| DNil | DBool (b : bool) | DInt (z : Z) | DFloat (q : Q) | DStr (s : string)
+| DStruct (l : list dval) | DList (l : list dval) | DMap (l : list (string * dval)) | DOther.
+
+Fixpoint show_cval (c : cval) : dval :=
+  match c with
+  | CNil => DNil
+  | CBool x => DBool x
+  | CInt z => DInt z
+  | CFloat q => DFloat q
+  | CStr x => DStr (to_string x)
+  | CStruct l => DStruct (map show_cval l)
+  | CSlice l => DList (map show_cval l)
+  | CMap kvs => DMap (map (fun kc => (to_string (fst kc), show_cval (snd kc))) kvs)
+  | _ => DOther
+  end.
+
+(* option name (nested structs dotted) with its default *)
+Fixpoint named_defaults (prefix : string) (ffs : list fld) (cs : list cval) : list (string * dval) :=
+  match ffs, cs with
+  | f :: ffs', c :: cs' => ((prefix ++ to_string (f_key f))%string, show_cval c) :: named_defaults prefix ffs' cs'
+  | _, _ => []
+  end.
+
+Definition defaults_table : list (string * string * list (string * dval)) :=
+  ("cli"%string, "config"%string,
+   named_defaults "" (flat_fields gen_root_schema) (match gen_root_default with CStruct l => l | _ => [] end)) ::
+  flat_map (fun e => match e_conf e with
+                     | Some (cs, CStruct l) => [(to_string (e_iface e), to_string (e_name e), named_defaults "" (flat_fields cs) l)]
+                     | _ => [] end) gen_registry.
+
+Lemma gen_defaults_documented : defaults_table =
+  ("cli"%string, "config"%string, ("pools"%string, DNil)
+  :: ("log"%string, DStruct (DInt 0 :: DStr "stdout" :: nil))
+  :: ("monitoring"%string, DStruct (DStruct (DBool false :: DInt 1234 :: nil) :: DStruct (DBool false :: DStr "cpuprofile.log" :: nil) :: DStruct (DBool false :: DStr "memprofile.log" :: nil) :: nil)) :: nil)
+  :: ("core.Aggregator"%string, "json"%string, ("sink"%string, DNil)
+  :: ("buffer-size"%string, DInt 0)
+  :: ("flush-interval"%string, DInt 1000000000)
+  :: ("sample-queue-size"%string, DInt 131072)
+  :: ("marshal-float-with-6-digits"%string, DBool false)
+  :: ("sort-map-keys"%string, DBool false)
+  :: ("buffer-size"%string, DInt 0) :: nil)
+  :: ("core.Aggregator"%string, "jsonlines"%string, ("sink"%string, DNil)
+  :: ("buffer-size"%string, DInt 0)
+  :: ("flush-interval"%string, DInt 1000000000)
+  :: ("sample-queue-size"%string, DInt 131072)
+  :: ("marshal-float-with-6-digits"%string, DBool false)
+  :: ("sort-map-keys"%string, DBool false)
+  :: ("buffer-size"%string, DInt 0) :: nil)
+  :: ("core.Aggregator"%string, "phout"%string, ("Destination"%string, DStr "")
+  :: ("ID"%string, DBool false)
+  :: ("flush-time"%string, DInt 1000000000)
+  :: ("sample-queue-size"%string, DInt 262144)
+  :: ("buffer-size"%string, DInt 8388608) :: nil)
+  :: ("core.DataSink"%string, "file"%string, ("path"%string, DStr "") :: nil)
+  :: ("core.DataSource"%string, "file"%string, ("path"%string, DStr "") :: nil)
+  :: ("core.DataSource"%string, "inline"%string, ("Data"%string, DStr "") :: nil)
+  :: ("core.Gun"%string, "connect"%string, ("Redirect"%string, DBool false)
+  :: ("dial"%string, DStruct (DBool true :: DInt 3000000000 :: DBool true :: DInt 0 :: DInt 120000000000 :: nil))
+  :: ("tls-handshake-timeout"%string, DInt 1000000000)
+  :: ("disable-keep-alives"%string, DBool false)
+  :: ("disable-compression"%string, DBool true)
+  :: ("max-idle-conns"%string, DInt 0)
+  :: ("max-idle-conns-per-host"%string, DInt 0)
+  :: ("idle-conn-timeout"%string, DInt 90000000000)
+  :: ("response-header-timeout"%string, DInt 0)
+  :: ("expect-continue-timeout"%string, DInt 1000000000)
+  :: ("connect-ssl"%string, DBool false)
+  :: ("Target"%string, DStr "")
+  :: ("-"%string, DStr "")
+  :: ("SSL"%string, DBool false)
+  :: ("auto-tag"%string, DStruct (DBool false :: DInt 2 :: DBool true :: nil))
+  :: ("answlog"%string, DStruct (DBool false :: DStr "answ.log" :: DStr "error" :: nil))
+  :: ("httptrace"%string, DStruct (DBool false :: DBool false :: nil))
+  :: ("shared-client"%string, DStruct (DInt 0 :: DBool false :: nil)) :: nil)
+  :: ("core.Gun"%string, "grpc"%string, ("Target"%string, DStr "default target")
+  :: ("reflect_port"%string, DInt 0)
+  :: ("reflect_metadata"%string, DNil)
+  :: ("timeout"%string, DInt 0)
+  :: ("tls"%string, DBool false)
+  :: ("dial_options"%string, DStruct (DStr "" :: DInt 0 :: nil))
+  :: ("answlog"%string, DStruct (DBool false :: DStr "answ.log" :: DStr "all" :: nil))
+  :: ("shared-client"%string, DStruct (DInt 0 :: DBool false :: nil)) :: nil)
+  :: ("core.Gun"%string, "grpc/scenario"%string, ("Target"%string, DStr "default target")
+  :: ("reflect_port"%string, DInt 0)
+  :: ("reflect_metadata"%string, DNil)
+  :: ("timeout"%string, DInt 0)
+  :: ("tls"%string, DBool false)
+  :: ("dial_options"%string, DStruct (DStr "" :: DInt 0 :: nil))
+  :: ("answlog"%string, DStruct (DBool false :: DStr "answ.log" :: DStr "all" :: nil)) :: nil)
+  :: ("core.Gun"%string, "http"%string, ("Redirect"%string, DBool false)
+  :: ("dial"%string, DStruct (DBool true :: DInt 3000000000 :: DBool true :: DInt 0 :: DInt 120000000000 :: nil))
+  :: ("tls-handshake-timeout"%string, DInt 1000000000)
+  :: ("disable-keep-alives"%string, DBool false)
+  :: ("disable-compression"%string, DBool true)
+  :: ("max-idle-conns"%string, DInt 0)
+  :: ("max-idle-conns-per-host"%string, DInt 0)
+  :: ("idle-conn-timeout"%string, DInt 90000000000)
+  :: ("response-header-timeout"%string, DInt 0)
+  :: ("expect-continue-timeout"%string, DInt 1000000000)
+  :: ("connect-ssl"%string, DBool false)
+  :: ("Target"%string, DStr "")
+  :: ("-"%string, DStr "")
+  :: ("SSL"%string, DBool false)
+  :: ("auto-tag"%string, DStruct (DBool false :: DInt 2 :: DBool true :: nil))
+  :: ("answlog"%string, DStruct (DBool false :: DStr "answ.log" :: DStr "error" :: nil))
+  :: ("httptrace"%string, DStruct (DBool false :: DBool false :: nil))
+  :: ("shared-client"%string, DStruct (DInt 0 :: DBool false :: nil)) :: nil)
+  :: ("core.Gun"%string, "http/scenario"%string, ("Redirect"%string, DBool false)
+  :: ("dial"%string, DStruct (DBool true :: DInt 3000000000 :: DBool true :: DInt 0 :: DInt 120000000000 :: nil))
+  :: ("tls-handshake-timeout"%string, DInt 1000000000)
+  :: ("disable-keep-alives"%string, DBool false)
+  :: ("disable-compression"%string, DBool true)
+  :: ("max-idle-conns"%string, DInt 0)
+  :: ("max-idle-conns-per-host"%string, DInt 0)
+  :: ("idle-conn-timeout"%string, DInt 90000000000)
+  :: ("response-header-timeout"%string, DInt 0)
+  :: ("expect-continue-timeout"%string, DInt 1000000000)
+  :: ("connect-ssl"%string, DBool false)
+  :: ("Target"%string, DStr "")
+  :: ("-"%string, DStr "")
+  :: ("SSL"%string, DBool false)
+  :: ("auto-tag"%string, DStruct (DBool false :: DInt 2 :: DBool true :: nil))
+  :: ("answlog"%string, DStruct (DBool false :: DStr "answ.log" :: DStr "error" :: nil))
+  :: ("httptrace"%string, DStruct (DBool false :: DBool false :: nil))
+  :: ("shared-client"%string, DStruct (DInt 0 :: DBool false :: nil)) :: nil)
+  :: ("core.Gun"%string, "http2"%string, ("Redirect"%string, DBool false)
+  :: ("dial"%string, DStruct (DBool true :: DInt 3000000000 :: DBool true :: DInt 0 :: DInt 120000000000 :: nil))
+  :: ("tls-handshake-timeout"%string, DInt 1000000000)
+  :: ("disable-keep-alives"%string, DBool false)
+  :: ("disable-compression"%string, DBool true)
+  :: ("max-idle-conns"%string, DInt 0)
+  :: ("max-idle-conns-per-host"%string, DInt 0)
+  :: ("idle-conn-timeout"%string, DInt 90000000000)
+  :: ("response-header-timeout"%string, DInt 0)
+  :: ("expect-continue-timeout"%string, DInt 1000000000)
+  :: ("connect-ssl"%string, DBool false)
+  :: ("Target"%string, DStr "")
+  :: ("-"%string, DStr "")
+  :: ("SSL"%string, DBool true)
+  :: ("auto-tag"%string, DStruct (DBool false :: DInt 2 :: DBool true :: nil))
+  :: ("answlog"%string, DStruct (DBool false :: DStr "answ.log" :: DStr "error" :: nil))
+  :: ("httptrace"%string, DStruct (DBool false :: DBool false :: nil))
+  :: ("shared-client"%string, DStruct (DInt 0 :: DBool false :: nil)) :: nil)
+  :: ("core.Gun"%string, "http2/scenario"%string, ("Redirect"%string, DBool false)
+  :: ("dial"%string, DStruct (DBool true :: DInt 3000000000 :: DBool true :: DInt 0 :: DInt 120000000000 :: nil))
+  :: ("tls-handshake-timeout"%string, DInt 1000000000)
+  :: ("disable-keep-alives"%string, DBool false)
+  :: ("disable-compression"%string, DBool true)
+  :: ("max-idle-conns"%string, DInt 0)
+  :: ("max-idle-conns-per-host"%string, DInt 0)
+  :: ("idle-conn-timeout"%string, DInt 90000000000)
+  :: ("response-header-timeout"%string, DInt 0)
+  :: ("expect-continue-timeout"%string, DInt 1000000000)
+  :: ("connect-ssl"%string, DBool false)
+  :: ("Target"%string, DStr "")
+  :: ("-"%string, DStr "")
+  :: ("SSL"%string, DBool true)
+  :: ("auto-tag"%string, DStruct (DBool false :: DInt 2 :: DBool true :: nil))
+  :: ("answlog"%string, DStruct (DBool false :: DStr "answ.log" :: DStr "error" :: nil))
+  :: ("httptrace"%string, DStruct (DBool false :: DBool false :: nil))
+  :: ("shared-client"%string, DStruct (DInt 0 :: DBool false :: nil)) :: nil) :: ( "core.Provider"%string, "grpc/json"%string, ( "File"%string, DStr "") :: ( "Limit"%string, DInt 0) :: ( "Passes"%string, DInt 0) :: ( "ContinueOnError"%string, DBool false) :: ( "MaxAmmoSize"%string, DInt 0) :: ( "source"%string, DStruct (DStr "" :: DStr "" :: nil)) :: ( "ChosenCases"%string, DNil) :: nil) :: ( "core.Provider"%string, "grpc/scenario"%string, ( "File"%string, DStr "") :: ( "Limit"%string, DInt 0) :: ( "Passes"%string, DInt 0) :: ( "ContinueOnError"%string, DBool false) :: ( "MaxAmmoSize"%string, DInt 0) :: nil) :: ( "core.Provider"%string, "http"%string, ( "Decoder"%string, DStr "") :: ( "File"%string, DStr "") :: ( "Limit"%string, DInt 0) :: ( "Headers"%string, DNil) :: ( "Passes"%string, DInt 0) :: ( "Uris"%string, DNil) :: ( "ContinueOnError"%string, DBool false) :: ( "MaxAmmoSize"%string, DInt 0) :: ( "ChosenCases"%string, DNil) :: ( "Middlewares"%string, DNil) :: ( "Preload"%string, DBool false) :: nil) :: ( "core.Provider"%string, "http/json"%string, ( "Decoder"%string, DStr "") :: ( "File"%string, DStr "") :: ( "Limit"%string, DInt 0) :: ( "Headers"%string, DNil) :: ( "Passes"%string, DInt 0) :: ( "Uris"%string, DNil) :: ( "ContinueOnError"%string, DBool false) :: ( "MaxAmmoSize"%string, DInt 0) :: ( "ChosenCases"%string, DNil) :: ( "Middlewares"%string, DNil) :: ( "Preload"%string, DBool false) :: nil) :: ( "core.Provider"%string, "http/scenario"%string, ( "File"%string, DStr "") :: ( "Limit"%string, DInt 0) :: ( "Passes"%string, DInt 0) :: ( "ContinueOnError"%string, DBool false) :: ( "MaxAmmoSize"%string, DInt 0) :: nil) :: ( "core.Provider"%string, "json"%string, ( "ammo-queue-size"%string, DInt 8192) :: ( "source"%string, DNil) :: ( "Limit"%string, DInt 0) :: ( "Passes"%string, DInt 0) :: ( "buffer-size"%string, DInt 0) :: nil) :: ( "core.Provider"%string, "raw"%string, ( "Decoder"%string, DStr "") :: ( "File"%string, DStr "") :: ( "Limit"%string, DInt 0) :: ( "Headers"%string, DNil) :: ( "Passes"%string, DInt 0) :: ( "Uris"%string, DNil) :: ( "ContinueOnError"%string, DBool false) :: ( "MaxAmmoSize"%string, DInt 0) :: ( "ChosenCases"%string, DNil) :: ( "Middlewares"%string, DNil) :: ( "Preload"%string, DBool false) :: nil) :: ( "core.Provider"%string, "uri"%string, ( "Decoder"%string, DStr "") :: ( "File"%string, DStr "") :: ( "Limit"%string, DInt 0) :: ( "Headers"%string, DNil) :: ( "Passes"%string, DInt 0) :: ( "Uris"%string, DNil) :: ( "ContinueOnError"%string, DBool false) :: ( "MaxAmmoSize"%string, DInt 0) :: ( "ChosenCases"%string, DNil) :: ( "Middlewares"%string, DNil) :: ( "Preload"%string, DBool false) :: nil) :: ( "core.Provider"%string, "uripost"%string, ( "Decoder"%string, DStr "") :: ( "File"%string, DStr "") :: ( "Limit"%string, DInt 0) :: ( "Headers"%string, DNil) :: ( "Passes"%string, DInt 0) :: ( "Uris"%string, DNil) :: ( "ContinueOnError"%string, DBool false) :: ( "MaxAmmoSize"%string, DInt 0) :: ( "ChosenCases"%string, DNil) :: ( "Middlewares"%string, DNil) :: ( "Preload"%string, DBool false) :: nil) :: ( "core.Schedule"%string, "composite"%string, ( "nested"%string, DNil) :: nil) :: ( "core.Schedule"%string, "const"%string, ( "Ops"%string, DFloat 0) :: ( "Duration"%string, DInt 0) :: nil) :: ( "core.Schedule"%string, "instance_step"%string, ( "From"%string, DInt 0) :: ( "To"%string, DInt 0) :: ( "Step"%string, DInt 0) :: ( "StepDuration"%string, DInt 0) :: nil) :: ( "core.Schedule"%string, "line"%string, ( "From"%string, DFloat 0) :: ( "To"%string, DFloat 0) :: ( "Duration"%string, DInt 0) :: nil) :: ( "core.Schedule"%string, "once"%string, ( "Times"%string, DInt 0) :: nil) :: ( "core.Schedule"%string, "step"%string, ( "From"%string, DFloat 0) :: ( "To"%string, DFloat 0) :: ( "Step"%string, DInt 0) :: ( "Duration"%string, DInt 0) :: nil) :: ( "core.Schedule"%string, "unlimited"%string, ( "Duration"%string, DInt 0) :: nil) :: ( "httpscenario.Postprocessor"%string, "assert/response"%string, ( "Headers"%string, DNil) :: ( "Body"%string, DNil) :: ( "status_code"%string, DInt 0) :: ( "Size"%string, DNil) :: nil) :: ( "httpscenario.Postprocessor"%string, "var/header"%string, ( "Mapping"%string, DNil) :: nil) :: ( "httpscenario.Postprocessor"%string, "var/jsonpath"%string, ( "Mapping"%string, DNil) :: nil) :: ( "httpscenario.Postprocessor"%string, "var/xpath"%string, ( "Mapping"%string, DNil) :: nil) :: ( "middleware.Middleware"%string, "header/date"%string, ( "Location"%string, DStr "") :: ( "HeaderName"%string, DStr "") :: nil) :: ( "scenario.Postprocessor"%string, "assert/response"%string, ( "Payload"%string, DNil) :: ( "status_code"%string, DInt 0) :: nil) :: ( "scenario.Preprocessor"%string, "prepare"%string, ( "Mapping"%string, DNil) :: nil) :: ( "vs.VariableSource"%string, "file/csv"%string, ( "Name"%string, DStr "") :: ( "File"%string, DStr "") :: ( "Fields"%string, DNil) :: ( "ignore_first_line"%string, DBool false) :: ( "Delimiter"%string, DStr "") :: nil) :: ( "vs.VariableSource"%string, "file/json"%string, ( "Name"%string, DStr "") :: ( "File"%string, DStr "") :: nil) :: ( "vs.VariableSource"%string, "variables"%string, ( "Name"%string, DStr "") :: ( "Variables"%string, DNil) :: nil) :: nil.
+Proof. vm_compute. reflexivity. Qed.
